@@ -670,7 +670,18 @@ fn run_case(lines: Vec<String>, hints: Arc<Mutex<Vec<String>>>, resp: Arc<Mutex<
             exp.push(t);
             t += p;
         }
-        if got != exp && key.is_none() {
+        if fatal_at.is_some() {
+            // after a fatal error the series is only required to be a gap-free, duplicate-free prefix of the progression
+            let mut t2 = t0p;
+            let mut full = Vec::new();
+            while full.len() < got.len() {
+                full.push(t2);
+                t2 += p;
+            }
+            if got != full || got.len() < exp.len() {
+                mon.hit("C10", format!("periodic action {aid} (t0={t0p}, period={p}) ran at {got:?}, not a complete prefix of t0+k*p (at least {exp:?})"));
+            }
+        } else if got != exp && key.is_none() {
             mon.hit("C10", format!("periodic action {aid} (t0={t0p}, period={p}) ran at {got:?}, expected {exp:?} up to time {horizon}"));
         } else if key.is_some() {
             // with a key: no drift / skip / double up to the cancellation point; nothing after it
